@@ -35,6 +35,8 @@ func Leave()                    {}
 func GoBegin()                  {}
 func GoEnd()                    {}
 func D(k int)                   {}
+func Boom()                     {}
+func Wait()                     {}
 `
 
 // NativeRT is the stub package of the native rendering: token-carrying data, valuation-driven Cond, deep sink walk.
@@ -128,6 +130,10 @@ func GoEnd() {
 		waiting = -1
 	}
 }
+
+// Boom panics in the calling goroutine (C19); Wait gives launched goroutines time to run.
+func Boom() { panic("boom") }
+func Wait() { time.Sleep(300 * time.Millisecond) }
 
 var dlog []string
 var logs = map[string]bool{}
@@ -342,6 +348,14 @@ func Explore(e Entry) Result {
 		sort.Strings(res.Logs)
 	}
 	return res
+}
+
+// RunSingle runs one program once under the given valuation, without recovering anything.
+func RunSingle(e Entry, bits []bool) {
+	vv = bits
+	pos = 0
+	e.Reset()
+	e.Main()
 }
 
 // WantLogs makes Explore report the deferred-run logs.
